@@ -541,6 +541,11 @@ void ezc3d::c3d::updateParameters(const std::vector<std::string> &newPoints, con
         throw std::runtime_error("newPoints in updateParameters should only be called on empty c3d");
     if (data().nbFrames() != 0 && newAnalogs.size() > 0)
         throw std::runtime_error("newAnalogs in updateParameters should only be called on empty c3d");
+    // The names are appended to the LABELS: make sure they are there before anything is modified
+    if (newPoints.size() > 0)
+        parameters().group("POINT").parameter("LABELS");
+    if (newAnalogs.size() > 0)
+        parameters().group("ANALOG").parameter("LABELS");
 
     // If frames has been added
     ezc3d::ParametersNS::GroupNS::Group& grpPoint(_parameters->group_nonConst(parameters().groupIdx("POINT")));
